@@ -990,6 +990,27 @@ def listcomp(ex, st, e):
             else:
                 st.pc.append(z3.Implies(_guard, _f))
         used('[expr for x in seq] -> sequence of the same length with expr at a generic index')
+        # Symbols created while the element was evaluated (results of draws, of callees, of opaque NumPy calls ...) stand for ONE
+        # element; stating `arr[j] == elt` for all j with such a symbol inside would make all elements equal.  Terms that mention
+        # them are not generalised over j (the sequence then only gets what is independent of them).
+        _cnt_j = int(str(j).rsplit('!', 1)[1])
+
+        def _per_element(t):
+            stack, seen = [Z(t)] if not isinstance(t, (int, float, bool)) else [], set()
+            while stack:
+                u = stack.pop()
+                if u.get_id() in seen:
+                    continue
+                seen.add(u.get_id())
+                if z3.is_const(u) and u.decl().kind() == z3.Z3_OP_UNINTERPRETED:
+                    nm = u.decl().name()
+                    if '!' in nm and nm.rsplit('!', 1)[1].isdigit() and int(nm.rsplit('!', 1)[1]) > _cnt_j:
+                        return True
+                if z3.is_app(u):
+                    stack.extend(u.children())
+                elif z3.is_quantifier(u):
+                    stack.append(u.body())
+            return False
         if elt is NONE:
             return st.alloc(VSeq(z3.K(z3.IntSort(), z3.IntVal(0)), it.n, _optarr_wrap, tag='optarr'))
         if isinstance(elt, VOpaque):
@@ -997,7 +1018,8 @@ def listcomp(ex, st, e):
                                  lambda t: VOpaque('elem'), tag='opaque'))
         if is_intsort(elt):
             arr = ex.fresh('lc', z3.ArraySort(z3.IntSort(), z3.IntSort()))
-            st.assume(z3.ForAll([j], z3.Implies(z3.And(j >= 0, j < it.n), arr[j] == Z(elt)), patterns=[arr[j]]))
+            if not _per_element(elt):
+                st.assume(z3.ForAll([j], z3.Implies(z3.And(j >= 0, j < it.n), arr[j] == Z(elt)), patterns=[arr[j]]))
             return st.alloc(VSeq(arr, it.n, lambda t: t, tag='int'))
         if is_num(elt) and not is_intsort(elt):
             arr = ex.fresh('lc', z3.ArraySort(z3.IntSort(), z3.RealSort()))
@@ -1005,18 +1027,17 @@ def listcomp(ex, st, e):
         if isinstance(elt, VArr) and elt.ndim == 2:
             # list of matrices of which only the shapes matter (cross: Ig): codes of a list of (optional) arrays
             arr = ex.fresh('lc', z3.ArraySort(z3.IntSort(), z3.IntSort()))
-            st.assume(z3.ForAll([j], z3.Implies(z3.And(j >= 0, j < it.n),
-                                               z3.And(arr[j] != 0, OROWS(arr[j]) == Z(elt.shape[0]), OCOLS(arr[j]) == Z(elt.shape[1]))),
-                                patterns=[arr[j]]))
+            facts = [arr[j] != 0] + [f(arr[j]) == Z(sh) for f, sh in ((OROWS, elt.shape[0]), (OCOLS, elt.shape[1])) if not _per_element(sh)]
+            st.assume(z3.ForAll([j], z3.Implies(z3.And(j >= 0, j < it.n), z3.And(*facts)), patterns=[arr[j]]))
             return st.alloc(VSeq(arr, it.n, _optarr_wrap, tag='optarr'))
         if isinstance(elt, VArr) and elt.ndim == 3:
             arr = ex.fresh('lc', T.TT)
-            if elt.t is not None and elt.tag == 'core':
+            if elt.t is not None and elt.tag == 'core' and not _per_element(elt.t):
                 st.assume(z3.ForAll([j], z3.Implies(z3.And(j >= 0, j < it.n), arr[j] == elt.t), patterns=[arr[j]]))
             else:
-                st.assume(z3.ForAll([j], z3.Implies(z3.And(j >= 0, j < it.n),
-                                                   z3.And(T.d0(arr[j]) == Z(elt.shape[0]), T.d1(arr[j]) == Z(elt.shape[1]),
-                                                          T.d2(arr[j]) == Z(elt.shape[2]))), patterns=[arr[j]]))
+                facts = [f(arr[j]) == Z(sh) for f, sh in ((T.d0, elt.shape[0]), (T.d1, elt.shape[1]), (T.d2, elt.shape[2])) if not _per_element(sh)]
+                if facts:
+                    st.assume(z3.ForAll([j], z3.Implies(z3.And(j >= 0, j < it.n), z3.And(*facts)), patterns=[arr[j]]))
             return st.alloc(VSeq(arr, it.n, mk_core, tag='core'))
         raise Unsupported('list comprehension element type')
     finally:
